@@ -285,7 +285,7 @@ reg("C15",
     level_text="Library and workload are compiled with -fsanitize=thread. Each case starts 8-16 threads; every thread repeatedly creates a server and a connection pair on a random transport (ux, uxf, tcp, tls, utls, btcp, btls), verifies messages both ways, reads all attributes, and closes - or hands the live connection to another thread through a mutex-protected queue, which then uses and closes it. TLS pairs alternate between the shared credential directory (context cache hits, last put) and per-thread by-value credentials (misses); bursts of 110 servers plus connects per thread create and destroy the process-wide always-readable eventfds; address parsing/validation and the console-log switch run concurrently. Every ThreadSanitizer report whose stacks contain a repository frame is a violation; interceptor events raised from inside uninstrumented libcrypto/libssl/libcares are suppressed (called_from_lib). Every other case runs with the control interface on, two threads then act as control clients (libxcmctl) towards sockets owned by the others; threads also connect to a host name (one resolver channel per socket, concurrently).",
     level_note="TSan sees the interleavings that occurred and the synchronisation it intercepts; no report in N runs is not race freedom. OpenSSL and c-ares internals are trusted.",
     harness=COMMON + ["vpki.c", "c15.c"],
-    stages=[dict(variant="tsan", cases={"quick": 160, "thorough": 3200}, timeout={"quick": 900, "thorough": 3400}, env={"VERIF_TSAN": "1"})],
+    stages=[dict(variant="tsan", cases={"quick": 160, "thorough": 1600}, timeout={"quick": 900, "thorough": 3400}, env={"VERIF_TSAN": "1"})],
     floors={"quick": {"threads_run": 1500, "connections": 6000, "messages_verified": 25000, "sockets_handed_over": 800, "socket_bursts": 800, "tls_pairs_shared_credentials": 800, "tls_pairs_private_credentials": 800,
                       "overlapping_creations": 4000, "overlapping_tls_creations": 1000, "distinct_nontrivial": 5},
             "thorough": {"connections": 60000, "overlapping_creations": 40000, "distinct_nontrivial": 5}},
